@@ -124,6 +124,25 @@ func ViaHelper(s *S, o *Opt, x int64) {
 	}
 }
 
+type R struct {
+	err   error
+	debug bool
+}
+
+func Latch(r *R, e error) {
+	if e != nil && r.err == nil {
+		r.err = e
+		use("latched")
+	}
+}
+
+func LatchSometimes(r *R, e error) {
+	if e != nil && r.err == nil && r.debug {
+		r.err = e
+		use("latched")
+	}
+}
+
 func LoopExit(xs []int64) int64 {
 	for _, x := range xs {
 		if x < 0 {
@@ -346,5 +365,28 @@ func TestHelperPredicatesAreFollowed(t *testing.T) {
 	_, a := useCall(t, p, fn, "helper after store")
 	if ok, _ := fi.Implies(a.Block(), need); ok {
 		t.Error("the helper called after a store to s.a speaks about the new value, not the old symbol")
+	}
+}
+
+func TestReverseImplication(t *testing.T) {
+	p := loadTest(t)
+	for _, tc := range []struct {
+		fn   string
+		want bool
+	}{{"Latch", true}, {"LatchSometimes", false}} {
+		fn := fnNamed(t, p, tc.fn)
+		fi, c := useCall(t, p, fn, "latched")
+		failed := And(Not(EqAtom("e", "nil")), EqAtom("r.err", "nil"))
+		v := fi.ViewAll(failed, fn.Blocks[0])
+		if v == nil {
+			t.Fatalf("%s: no view", tc.fn)
+		}
+		if got := v.ImpliedBy(c.Block(), failed); got != tc.want {
+			t.Errorf("%s: 'e != nil && r.err == nil ⇒ the store is reached' decided %v, want %v (a branch on an unrelated condition must not be projected away)", tc.fn, got, tc.want)
+		}
+		// the forward direction holds in both
+		if ok, have := fi.Implies(c.Block(), Not(EqAtom("e", "nil"))); !ok {
+			t.Errorf("%s: forward implication lost: %v", tc.fn, have)
+		}
 	}
 }
